@@ -1,8 +1,37 @@
-import PyGam.Drv.Common
+import PyGam.Drv.TermParse
 namespace PyGam.Drv.C16
 open PyGam PyGam.Drv
 
-/-- operations of the C16 model driver (`C16 <op> <args…>`); `none` ↦ `bad-op` -/
-def handle : List String → Option String
+/-- operations of the C16 model driver
+* `cols <terms> | <x_0 … x_{m-1}>` → one exact row of the model matrix
+* `termcols <i> <terms> | <x…>`    → the columns of term `i` only
+* `idx <terms>`                    → `start:stop` of every term's coefficient indices, and the total -/
+def handle (toks : List String) : Option String :=
+  match toks with
+  | "cols" :: rest =>
+    match splitBar rest with
+    | [ts, xs] => do
+        let (terms, r) ← pTerms ts
+        if r ≠ [] then none else
+        let x ← parseRats? xs
+        let row := columnsAll epsRat (listToVec x) terms
+        some (showRatList (vecToList (nCoefsAll terms) row))
+    | _ => none
+  | "termcols" :: i :: rest =>
+    match splitBar rest with
+    | [ts, xs] => do
+        let i ← i.toNat?
+        let (terms, r) ← pTerms ts
+        if r ≠ [] then none else
+        let x ← parseRats? xs
+        let t ← terms[i]?
+        some (showRatList (vecToList t.nCoefs (t.columns epsRat (listToVec x))))
+    | _ => none
+  | "idx" :: rest => do
+      let (terms, r) ← pTerms rest
+      if r ≠ [] then none else
+      let parts := (List.range terms.length).map (fun i =>
+        toString (coefStart terms i) ++ ":" ++ toString (coefStart terms i + (terms[i]?.map Term.nCoefs).getD 0))
+      some (joinWith " " parts ++ " total " ++ toString (nCoefsAll terms))
   | _ => none
 end PyGam.Drv.C16
